@@ -1284,12 +1284,16 @@ INTEGER_compare(const asn_TYPE_descriptor_t *td, const void *aptr,
                 return 1 * sign_b;
             }
 
-            return sign_a * memcmp(a_buf, b_buf, a_size);
+            /*
+             * Two's complement numbers of the same sign and length
+             * are ordered as their octets are, negative or not.
+             */
+            return memcmp(a_buf, b_buf, a_size);
         } else if(a->size) {
             int sign = (a->buf[0] & 0x80) ? -1 : 1;
             return (1) * sign;
         } else if(b->size) {
-            int sign = (a->buf[0] & 0x80) ? -1 : 1;
+            int sign = (b->buf[0] & 0x80) ? -1 : 1;
             return (-1) * sign;
         } else {
             return 0;
